@@ -1237,6 +1237,11 @@ class Evaluator:
             v = self.apply_local(self.localdefs[e.func.id], args, fr)
             if v is not None:
                 return v
+        if isinstance(e.func, ast.Name) and fr.env.get(e.func.id, ("?",))[0] == "cls":
+            # a local name bound to a class of the package: the call constructs it
+            c_ = self.model.maybe_cls(fr.env[e.func.id][1])
+            if c_ is not None:
+                return self.construct(c_, args, kwargs, fr)
         if isinstance(e.func, ast.Name) and fr.env.get(e.func.id, ("?",))[0] == "fn":
             # a local name bound to a function of the package: the call is a call of that function
             qn = fr.env[e.func.id][1]
@@ -1257,6 +1262,8 @@ class Evaluator:
                     if names:
                         return t_or(*[("isinstance", args[0], nm) for nm in names])
                     return ("isinstance", args[0], show(args[1]))
+                if n == "dict" and not args and not kwargs:
+                    return ("dict", ())
                 if n == "dict" and not args and kwargs and all(k != "**" for k, _ in kwargs):
                     return ("dict", tuple((("const", k), v) for k, v in kwargs))
                 if n == "getattr" and len(args) in (2, 3) and not kwargs and args[1][0] == "const" and isinstance(args[1][1], str) and len(args) == 2:
@@ -1447,6 +1454,27 @@ class Evaluator:
             if short == "map":
                 return ("comp", "gen", img, ((dom, ()),))
             return ("comp", "gen", b, ((dom, (self.truthy(img) if short == "filter" else t_not(self.truthy(img)),)),))
+        if short == "next" and len(args) == 2 and args[0][0] == "comp" and len(args[0][3]) == 1:
+            # first match in a display of known length: the chain of cases it abbreviates
+            c = args[0]
+            dom = c[3][0][0]
+            while dom[0] == "var" and len(dom) == 4:
+                dom = dom[3]
+            if dom[0] in ("tuple", "list") and len(dom[1]) <= 8 and not any(x[0] == "star" for x in dom[1]):
+                bs = subterms((c[2],) + tuple(c[3][0][1]), lambda x: x[0] == "bound" and isinstance(x[1], int) and x[3] == show(c[3][0][0]))
+                if len(bs) <= 1:
+                    out = args[1]
+                    for item in reversed(dom[1]):
+                        mp = {}
+                        if bs:
+                            mp[bs[0]] = item
+                            if item[0] in ("tuple", "list"):
+                                for k_, x_ in enumerate(item[1]):
+                                    mp[("item", bs[0], k_)] = x_
+                        cond = t_and(*[subst(x, mp) for x in c[3][0][1]]) if c[3][0][1] else TRUE
+                        out = t_ite(cond, subst(c[2], mp), out)
+                    return out
+            return None
         if short == "islice" and len(args) in (2, 3, 4):
             # islice(xs, a, b) ranges over xs[a:b]
             lo, hi, stp = (NONE, args[1], NONE) if len(args) == 2 else (args[1], args[2], args[3] if len(args) == 4 else NONE)
